@@ -71,6 +71,9 @@ pub open spec fn base_perm_post<F: Field>(old: &CircuitBuilder<F>, new: &Circuit
             forall|i: int| 0 <= i < 8 && out_ctl[i] ==> ((#[trigger] outs[i]) matches Some(t) ==> new.bound(t)))
 }
 
+/// the base-mode (D=1) permutation row emitted last: (new_start, the 16 input limbs, the committed length tag absorb_len, the 16 output limbs).
+/// A witness function: only add_poseidonN_perm_base says anything about it, so a caller can establish a fact about it only by making that call with those arguments.
+pub uninterp spec fn last_base_row<F: Field>(cb: &CircuitBuilder<F>) -> (bool, Seq<Option<ExprId>>, int, Seq<Option<ExprId>>);
 impl<F: Field> CircuitBuilder<F> {
     #[verifier::external_body]
     pub fn push_scope(&mut self, s: &'static str) ensures *final(self) == *old(self) {}
@@ -95,13 +98,15 @@ impl<F: Field> CircuitBuilder<F> {
     pub fn add_poseidon2_perm_base(&mut self, call: &Poseidon2PermCallBase) -> (r: Result<(NonPrimitiveOpId, [Option<ExprId>; 16]), CircuitBuilderError>)
         ensures final(self).extends(old(self)),
                 perm_ops_enabled() && call.config.dd == 1 ==> r is Ok,
-                r matches Ok(p) ==> base_perm_post(old(self), final(self), call.new_start, call.inputs@, call.out_ctl@, call.return_all_outputs, p.1@)
+                r matches Ok(p) ==> base_perm_post(old(self), final(self), call.new_start, call.inputs@, call.out_ctl@, call.return_all_outputs, p.1@),
+                r matches Ok(p) ==> last_base_row(final(self)) == (call.new_start, call.inputs@, call.absorb_len as int, p.1@)
     { unimplemented!() }
     #[verifier::external_body]
     pub fn add_poseidon1_perm_base(&mut self, call: &Poseidon1PermCallBase) -> (r: Result<(NonPrimitiveOpId, [Option<ExprId>; 16]), CircuitBuilderError>)
         ensures final(self).extends(old(self)),
                 perm_ops_enabled() && call.config.dd == 1 ==> r is Ok,
-                r matches Ok(p) ==> base_perm_post(old(self), final(self), call.new_start, call.inputs@, call.out_ctl@, call.return_all_outputs, p.1@)
+                r matches Ok(p) ==> base_perm_post(old(self), final(self), call.new_start, call.inputs@, call.out_ctl@, call.return_all_outputs, p.1@),
+                r matches Ok(p) ==> last_base_row(final(self)) == (call.new_start, call.inputs@, call.absorb_len as int, p.1@)
     { unimplemented!() }
 }
 
@@ -224,6 +229,10 @@ def base_wrapper(u, CB, IMPL, name):
     w.ensures('shape', 'ret matches Ok(v) ==> final(self).has_all(v@)')
     w.ensures('rate_outputs_pinned_and_capacity_chained',
               'ret matches Ok(v) ==> (base_inputs_pinned(old(self), inputs@, new_start) ==> final(self).chain@ && forall|i: int| 0 <= i < 8 ==> final(self).bound(#[trigger] v@[i]))')
+    # value level (C05 / C06): the row is emitted with the caller's chain flag, input limbs and LENGTH TAG, and its outputs come back in order
+    w.ensures('emits_one_row_with_the_callers_flag_inputs_and_length_tag',
+              'ret matches Ok(v) ==> last_base_row(final(self)).0 == new_start && last_base_row(final(self)).1 == inputs@ && last_base_row(final(self)).2 == absorb_len')
+    w.ensures('returns_the_rows_outputs_in_order', 'ret matches Ok(v) ==> forall|i: int| 0 <= i < 16 ==> (#[trigger] last_base_row(final(self)).3[i]) == Some(v@[i])')
     w.before('self.pop_scope();', '''proof {
             assert forall|j: int| 0 <= j < 16 implies self.has(#[trigger] output_exprs@[j]) by { assert(outputs@[j] is Some); }
             if base_inputs_pinned(old(self), inputs@, new_start) {
@@ -312,6 +321,10 @@ def duplex_base(u, F, IMPL, name, cfgname, cfgty):
     d.ensures('shape', 'final(self).state@.len() == WIDTH && final(self).initialized')
     d.ensures('frame', '''final(circuit).extends(old(circuit)) && final(self).input_buffer == old(self).input_buffer && final(self).output_buffer == old(self).output_buffer
             && final(self).config == old(self).config''')
+    d.ensures('emits_one_row_with_the_chain_flag_the_rate_limbs_and_the_callers_length_tag',
+              '''last_base_row(final(circuit)).0 == !old(self).duplexed_once && last_base_row(final(circuit)).2 == absorb_len
+            && last_base_row(final(circuit)).1 =~= Seq::new(16, |i: int| if i < RATE { Some(old(self).state@[i]) } else { None::<Target> })''')
+    d.ensures('adopts_the_rows_outputs_in_order', 'forall|i: int| 0 <= i < 16 ==> (#[trigger] last_base_row(final(circuit)).3[i]) == Some(final(self).state@[i])')
     d.before('let outputs = circuit', '''proof {
             assert(base_inputs_pinned(circuit, inputs@, new_start)) by {
                 assert forall|j: int| 0 <= j < 16 implies ((#[trigger] inputs@[j]) matches Some(t) ==> circuit.bound(t)) by {
